@@ -6,7 +6,7 @@ PROP = dict(
     units=["bytecode"],
     level_text="Every constructor and accessor of the three bytecode representations is extracted verbatim on each run and "
                "verified by Verus against the REAL Bytecode / LegacyAnalyzedBytecode / Eip7702Bytecode / Eof / "
-               "BytecodeDecodeError / Eip7702DecodeError / EofDecodeError of the compiled crate (unit bytecode, 45 obligations): "
+               "BytecodeDecodeError / Eip7702DecodeError / EofDecodeError of the compiled crate (unit bytecode, 49 obligations; the run also re-verifies unit eofcodec, whose contracts of Eof::size/encode_slow, EofHeader::{size, body_size, eof_size, types_count, data_size_raw_i, decode} and EofBody::{code, decode} unit bytecode assumes through the ledger): "
                "Eip7702Bytecode::{new_raw, new, raw, address}; Bytecode::{new, new_legacy, new_raw, new_raw_checked, new_eip7702, "
                "new_analyzed, hash_slow, original_bytes, original_byte_slice, bytecode, bytes, bytes_slice, len, is_empty, "
                "is_execution_ready, legacy_jump_table, eof, is_eof, is_eip7702}; LegacyAnalyzedBytecode::{new, bytecode, "
@@ -56,8 +56,8 @@ PROP = dict(
         "real constant linked by the axiom keccak(empty) == KECCAK_EMPTY",
         "assume_specification on the compiled public methods carry the clause text that the same unit proves on their extracted "
         "source (public inherent methods of external types cannot be shadowed; same crate, same run)",
-        "stub `analyze` (no contract), assumed `LegacyAnalyzedBytecode::default`, `EofHeader::decode` / `EofBody::decode` (no "
-        "contract), `EofBody::code` (returns the section view)",
+        "stub `analyze` (no contract), assumed `LegacyAnalyzedBytecode::default`; the EOF codec functions carry the contracts "
+        "proved in unit eofcodec (ledger closure: that unit is re-verified in every C27 run)",
     ],
     assumptions=[
         "to_analysed: `analyze` returns (no panic, terminates) -- bounded elsewhere (C04 Kani harnesses c04::*, builder c04-jump); "
